@@ -2,6 +2,7 @@ package main
 
 import (
 	"fmt"
+	"os"
 	"go/token"
 	"sort"
 	"strings"
@@ -30,7 +31,17 @@ func runC10(c *Ctx) {
 	consume := w.Func("proto", "", "consumeSingleTURNFrame")
 	readFrom := w.Func("proto", "STUNConn", "ReadFrom")
 	bind := w.Func("client", "TCPAllocation", "BindConnection")
-	fns := []*ssa.Function{consume, readFrom, bind}
+	// the three entry points with the private helpers their bodies are split into
+	var fns []*ssa.Function
+	inFns := map[*ssa.Function]bool{}
+	for _, f := range []*ssa.Function{consume, readFrom, bind} {
+		for _, h := range w.reachableHelpers(f) {
+			if !inFns[h] {
+				inFns[h] = true
+				fns = append(fns, h)
+			}
+		}
+	}
 	ruleNoWrap(c, "C10.1w", fns, 0)
 	ruleBounds(c, "C10.1b", fns, 2)
 	ruleProgress(c, "C10.1p")
@@ -195,6 +206,11 @@ func runC10(c *Ctx) {
 			nReads++
 			facts := w.factsAt(in)
 			good := false
+			if os.Getenv("TURNCHECK_C10DEBUG") != "" {
+				for _, f := range facts {
+					fmt.Fprintln(os.Stderr, "C10.3 fact at Read", w.instrPos(in), w.factStr(f))
+				}
+			}
 			for _, f := range facts {
 				x, outcome := factOutcome(f)
 				var tested ssa.Value
@@ -208,6 +224,9 @@ func runC10(c *Ctx) {
 					continue
 				}
 				ec, ei := callOf(w.resolveLoad(tested))
+				if os.Getenv("TURNCHECK_C10DEBUG") != "" {
+					fmt.Fprintf(os.Stderr, "C10.3 tested %T %s call=%v idx=%d\n", tested, w.key(tested), ec != nil, ei)
+				}
 				if ec == nil || ec.Call.StaticCallee() == nil || !w.IsMod[ec.Call.StaticCallee()] {
 					continue
 				}
@@ -219,6 +238,12 @@ func runC10(c *Ctx) {
 				for _, f2 := range facts {
 					if sv, g, isS := sentinelFact(w, f2); isS && w.sameKey(sv, tested) {
 						set = map[string]bool{g.Name(): true}
+					}
+					if os.Getenv("TURNCHECK_C10DEBUG") != "" {
+						fmt.Fprintf(os.Stderr, "C10.3 narrowing fact op=%s truth=%v X=%T\n", f2.Op, f2.Truth, f2.X)
+						if ic, _ := callOf(f2.X); ic != nil && f2.Op == "true" {
+							fmt.Fprintf(os.Stderr, "   callee=%v args0=%s same=%v tested=%s\n", ic.Call.StaticCallee(), w.key(ic.Call.Args[0]), w.sameKey(ic.Call.Args[0], tested), w.key(tested))
+						}
 					}
 					if f2.Op == "true" && !f2.Truth {
 						if ic, _ := callOf(f2.X); ic != nil && ic.Call.StaticCallee() != nil && ic.Call.StaticCallee().String() == "errors.Is" && w.sameKey(ic.Call.Args[0], tested) {
